@@ -115,7 +115,8 @@ def make_drawing(cls, figspec, **kw):
 
 
 def hyp_drawing(case, model, init=None):
-    kw = dict(model=model)
+    al = MODEL_ALIASES[model]
+    kw = dict(model=al[case["fig"].get("alias", 0) % len(al)])
     if init is not None:
         kw["transform"] = hyperbolic.Isometry(np.array(init, dtype=float))
     return make_drawing(drawtools.HyperbolicDrawing, case["fig"], **kw)
@@ -149,7 +150,15 @@ ANG = st.one_of(fl(-math.pi, math.pi),
                 st.sampled_from([0.0, math.pi / 2, math.pi, -math.pi / 2]))
 
 FIG = st.fixed_dictionaries(dict(size=st.sampled_from([1, 1, 1, 2, 2, 3, 8]),
-                                 own=st.booleans()))
+                                 own=st.booleans(), alias=st.integers(0, 3)))
+
+# the names a caller may use for a model (strings incl. aliases, enum members)
+MODEL_ALIASES = {
+    "poincare": ["poincare", hyperbolic.Model.POINCARE],
+    "halfspace": ["halfspace", "halfplane", hyperbolic.Model.HALFSPACE,
+                  hyperbolic.Model.HALFPLANE],
+    "klein": ["klein", hyperbolic.Model.KLEIN],
+}
 
 SHAPES = st.sampled_from([[], [], [1], [2], [3], [4], [1, 2], [2, 2], [2, 1]])
 
@@ -494,6 +503,11 @@ def draw_and_check_polygons(case, ctx, model, poly, Q, noisy=False):
     """draw `poly` under the case's figure / transform program and compare every patch with
     the expected model vertices Q (count, n, 2)"""
     n = Q.shape[1]
+    if Q.size and float(np.min(np.linalg.norm(Q - np.roll(Q, -1, axis=1), axis=-1))) < 1e-6:
+        # (nearly) coincident consecutive vertices: not a polygon of the domain, and the
+        # edge's geodesic is undefined - nothing is drawn or judged
+        ctx.label("skipped:degenerate-edge")
+        return
     with hyp_drawing(case, model, init_of(case["prog"])) as d:
         apply_program(d, case["prog"], hyperbolic.Isometry)
         d.draw_polygon(poly, **case["style"])
